@@ -164,7 +164,11 @@ func (c *ctx) runTrieJob(j *trieJob, out chan<- batch) {
 			if spec.Impl == "trie2" {
 				cachedFlag = "1"
 			}
-			add(check{line: "pv " + legacyFlag + " " + cachedFlag + " " + fmt.Sprint(spec.Height) + " " + key + pvTail,
+			var norm func(string) string
+			if spec.Impl == "legacy" {
+				norm = func(m string) string { return strings.ReplaceAll(m, ":v", ":h") }
+			}
+			add(check{norm: norm, line: "pv " + legacyFlag + " " + cachedFlag + " " + fmt.Sprint(spec.Height) + " " + key + pvTail,
 				impl: "root " + rootHex + " get " + truth + p.canon(spec.Impl == "trie2"),
 				sig:  spec.Impl + ":prove", replay: mk(spec.Impl+":prove", "none", -1, rootHex, key, p, true)})
 			res.Hit("prove-correspondence:" + spec.Impl)
